@@ -1,9 +1,9 @@
 \* generated once by the C27 builder; see MC_StdModels.tla
 CONSTANTS
   MKind = "vec"
-  MEty = "u64"
+  MEty = "pair"
   Prefixes <- PrefNew
-  OpNames = {"push", "pop", "clear", "clone", "insert", "remove", "set", "swap", "resize", "get"}
+  OpNames = {"push", "pop", "insert", "remove", "set", "swap", "get"}
   MaxOps = 40
   NumSel <- NumSel_none
 SPECIFICATION SimSpec
